@@ -205,6 +205,12 @@ class FD:
                 return self.resolver(d)
             except KeyError:
                 pass
+        if d is not None and d.count('.') == 1 and d.split('.')[0] in ('re', 'math') and d.split('.')[0] not in env:
+            # plain constants of two stdlib modules (re.MULTILINE, math.inf): data, not code
+            import importlib
+            v = getattr(importlib.import_module(d.split('.')[0]), e.attr, _MISSING)
+            if isinstance(v, (int, float, str)):
+                return v
         base = self.eval(e.value, env)
         if isinstance(base, Obj):
             if e.attr in base.attrs:
